@@ -18,6 +18,7 @@ echo "== patched tree"
 git apply "$OUT/patch.diff"
 ninja -C _b -j8 $TARGETS > /tmp/confirm_build.log 2>&1 || { tail -20 /tmp/confirm_build.log; exit 9; }
 rc_tests=0
+set +e
 for t in $TESTS; do
   ( cd _b/bin && ./$t > /tmp/confirm_test_$t.log 2>&1 ); r=$?
   tail -3 /tmp/confirm_test_$t.log | head -3
